@@ -24,7 +24,8 @@ import seams
 import world as W
 from peer import PEER
 
-TB_KINDS = {'tb', 'tbstack', 'tbbare', 'tbell', 'tbwrongmsg', 'tbwrongtype', 'tbdetail'}
+TB_KINDS = {'tb', 'tbstack', 'tbbare', 'tbell', 'tbwrongmsg', 'tbwrongtype', 'tbdetail', 'tbdots', 'tbdotssuffix'}
+# 'tbdotsonly' (header + ellipsis, no final line) is deliberately absent: it is not a traceback block
 
 
 class Expect:
@@ -135,7 +136,9 @@ def tb_matches(st, ex, flags):
     got_cls = got.split(':', 1)[0].split('\n', 1)[0].strip()
     same_cls_short = nom_cls.rsplit('.', 1)[-1] == got_cls.rsplit('.', 1)[-1]
     ied = flags['IGNORE_EXCEPTION_DETAIL']
-    if kind in ('tb', 'tbstack', 'tbbare'):
+    if kind == 'tbdotssuffix':
+        return False
+    if kind in ('tb', 'tbstack', 'tbbare', 'tbdots'):
         if got == nominal:
             return True
         if ied:
